@@ -226,6 +226,10 @@ type Raft struct {
 	wg sync.WaitGroup
 
 	mu sync.Mutex
+
+	// Serialises Start, Restart and Stop with each other. It is acquired before mu
+	// and is not held by anything else.
+	lifecycleMu sync.Mutex
 }
 
 // NewRaft creates a new instance of Raft with the provided ID and address.
@@ -450,6 +454,9 @@ func (r *Raft) Restart() error {
 // start will start this node if it is not already started. If restore is true,
 // then any persisted state will be restored.
 func (r *Raft) start(restore bool) error {
+	r.lifecycleMu.Lock()
+	defer r.lifecycleMu.Unlock()
+
 	r.mu.Lock()
 	defer r.mu.Unlock()
 
@@ -510,6 +517,9 @@ func (r *Raft) start(restore bool) error {
 
 // Stop stops this node if is not already stopped.
 func (r *Raft) Stop() {
+	r.lifecycleMu.Lock()
+	defer r.lifecycleMu.Unlock()
+
 	r.mu.Lock()
 
 	if r.state == Shutdown {
@@ -530,6 +540,9 @@ func (r *Raft) Stop() {
 
 	// Stop accepting RPCs.
 	r.transport.Shutdown()
+
+	r.mu.Lock()
+	defer r.mu.Unlock()
 
 	if err := r.log.Close(); err != nil {
 		r.logger.Errorf("failed to close log: %v", err)
